@@ -10,8 +10,13 @@ C12 - all ways of passing the same arguments are equivalent.
 * `kind_exclusive`: method-only definitions never answer function calls and vice versa.
 * `spelling_*`: one parameter at a time, `get_delegate` binds the same value whether it arrives
   positionally, by keyword (alias name), or - for a defaulted parameter - is omitted, skipped with an
-  empty slot, or given explicitly with the default value.  The whole-vector statement is
-  `spelling_equiv_full`.
+  empty slot, or given explicitly with the default value.
+* `spelling_equiv : spelling_equiv_full`: the whole argument vector - what `get_delegate` binds is a
+  function of the value each parameter ends up with (`getDelegate_eq_of_received`), so any two spellings
+  that agree on those values, on `*`'s and `**`'s share, and on whether something is passed twice bind
+  the same vector.  `mapArgs_of_getDelegate`: a vector that `get_delegate` binds passes `map_args` in
+  every spelling without an empty slot whose parameter comes by keyword; `map_args` alone is NOT
+  spelling-invariant (`mapArgs_not_spelling_invariant`).
 -/
 namespace Yaql.Props.C12
 open Yaql.Types Yaql.Resolve Yaql.Registry Yaql.Props.C05
@@ -587,11 +592,14 @@ theorem movesOk_spec {ps : List Param} (hok : movesOk ps = true) {i : Nat} {p : 
     · rw [hh] at h3; cases h3
     · exact h3
 
-/-- the full statement (not derived here): for a well-formed definition, every way of spelling one
-    argument vector - any positional prefix with the rest by keyword in any order, any subset of the
-    defaulted arguments omitted, skipped or given explicitly - makes both `map_args` succeed/fail
-    alike and `get_delegate` bind the same vector -/
-def spelling_equiv_full : Prop :=
+/-- the whole-vector statement as it was first written down.  It is FALSE (`spelling_equiv_unguarded_false`
+    below): it lets one spelling pass an argument twice (in its slot and by keyword: ArgumentException) and
+    lets the two keyword dictionaries differ in entries that no parameter takes (ArgumentException without
+    `**`, another `**` dictionary with it); it also asks for the same *received* value, which does not cover
+    a defaulted argument written out in one spelling and left out in the other.  The real `get_delegate`
+    behaves like the model on both witnesses; the statement was sloppy, the code is not at fault.
+    The corrected statement is `spelling_equiv_full` / `spelling_equiv` at the end of the section. -/
+def spelling_equiv_unguarded : Prop :=
   ∀ (L : Lattice) (ps : List Param), wfDef ps = true →
     ∀ (args args' : List Arg) (kw kw' : KwArgs),
       (∀ p ∈ ps, p.hidden = false → p.isStar = false → p.isStarStar = false →
@@ -604,6 +612,1144 @@ def spelling_equiv_full : Prop :=
           | none => alookup p.argName kw')) →
       args.drop (visCount ps) = args'.drop (visCount ps) →
       getDelegate L ps args kw = getDelegate L ps args' kw'
+
+
+/-! ## the whole argument vector -/
+
+/-- `get_delegate` binds an argument (or the default) to `p`: a visible parameter other than `*` / `**` -/
+def takes (p : Param) : Bool :=
+  match p.position with
+  | some _ => !p.isStar && !p.hidden
+  | none => !p.isStarStar && !p.hidden
+
+/-- what a spelling passes to `p`: the argument in its slot, else the keyword under its name -/
+def received (ps : List Param) (p : Param) (args : List Arg) (kw : KwArgs) : Option Arg :=
+  match slotOf ps p with
+  | some s => if given args s then some (args.getD s .noValue) else alookup p.argName kw
+  | none => alookup p.argName kw
+
+/-- ... else its default -/
+def effective (ps : List Param) (p : Param) (args : List Arg) (kw : KwArgs) : Option Arg :=
+  match received ps p args kw with
+  | some a => some a
+  | none => p.default
+
+/-- no argument is passed twice (in its slot and by keyword) -/
+def noClash (ps : List Param) (args : List Arg) (kw : KwArgs) : Bool :=
+  ps.all fun p => match slotOf ps p with
+    | some s => !(given args s && ahas p.argName kw)
+    | none => true
+
+/-- the keywords that no named parameter takes (they go to `**`) -/
+def extraKw (ps : List Param) (kw : KwArgs) : KwArgs := kw.filter fun kv => !(argNames ps).contains kv.1
+
+/-- the state of the loop of `get_delegate` without the keyword dictionary -/
+structure Core where
+  pos : List (Option Slot)
+  kw : List (Name × Slot)
+  vis : Nat
+
+def core (st : DelSt) : Core := ⟨st.pos, st.kw, st.vis⟩
+def Core.withRest (c : Core) (r : KwArgs) : DelSt := { pos := c.pos, kw := c.kw, rest := r, vis := c.vis }
+
+/-- one iteration of the loop of `get_delegate` as a function of the value `ev p` the parameter gets -/
+def bindStep (L : Lattice) (ev : Param → Option Arg) (c : Core) (p : Param) : Option Core :=
+  match p.position with
+  | some q =>
+      if p.isStar then some c
+      else if p.hidden then some { c with pos := c.pos.set q (some (.hid p.ty)), vis := c.vis - 1 }
+      else (ev p).bind fun v => (checked L p v).map fun s => { c with pos := c.pos.set q (some s) }
+  | none =>
+      if p.isStarStar then some c
+      else if p.hidden then some { c with kw := aset p.name (.hid p.ty) c.kw }
+      else (ev p).bind fun v => (checked L p v).map fun s => { c with kw := aset p.name s c.kw }
+
+def bindLoop (L : Lattice) (ev : Param → Option Arg) : Core → List Param → Option Core
+  | c, [] => some c
+  | c, p :: r => match bindStep L ev c p with
+      | some c' => bindLoop L ev c' r
+      | none => none
+
+def namesOf (l : List Param) : List Name := (l.filter takes).map (·.argName)
+def dropNames (ns : List Name) (kw : KwArgs) : KwArgs := kw.filter fun kv => !ns.contains kv.1
+
+theorem adel_of_ahas_false {α : Type} (k : Name) (l : List (Name × α)) (h : ahas k l = false) : adel k l = l := by
+  simp only [ahas, List.any_eq_false] at h
+  simp only [adel, List.filter_eq_self]
+  intro a ha
+  simpa using h a ha
+
+theorem alookup_none_ahas {α : Type} (k : Name) : ∀ (l : List (Name × α)), alookup k l = none → ahas k l = false
+  | [], _ => rfl
+  | (k', v) :: r, h => by
+      simp only [alookup] at h
+      split at h
+      · cases h
+      · rename_i hk
+        simp only [ahas, List.any_cons, hk, Bool.false_or]
+        exact alookup_none_ahas k r h
+
+theorem alookup_adel_other {α : Type} {k k' : Name} (hne : k ≠ k') : ∀ (l : List (Name × α)),
+    alookup k (adel k' l) = alookup k l
+  | [] => rfl
+  | (k'', v) :: r => by
+      have ih := alookup_adel_other hne r
+      simp only [adel] at ih ⊢
+      simp only [List.filter_cons]
+      by_cases h1 : (k'' == k') = true
+      · have : (k'' == k) = false := by
+          rw [beq_iff_eq] at h1; subst h1
+          exact beq_false_of_ne (fun e => hne e.symm)
+        simp [h1, alookup, this, ih]
+      · simp only [h1, Bool.not_false, if_true, alookup, Bool.false_eq_true] at *
+        simp only [ih]
+
+theorem ahas_adel_false {α : Type} (k k' : Name) (l : List (Name × α)) (h : ahas k l = false) :
+    ahas k (adel k' l) = false := by
+  cases hh : ahas k (adel k' l) with
+  | false => rfl
+  | true => rw [ahas_adel _ _ _ hh] at h; cases h
+
+theorem ahas_adel_other {α : Type} {k k' : Name} (hne : k ≠ k') (l : List (Name × α)) :
+    ahas k (adel k' l) = ahas k l := by
+  simp only [ahas, adel, List.any_filter]
+  congr 1
+  funext x
+  by_cases h : (x.1 == k) = true
+  · have : (x.1 == k') = false := by
+      rw [beq_iff_eq] at h; rw [h]; exact beq_false_of_ne hne
+    simp [h, this]
+  · simp [h]
+
+theorem dropNames_nil (kw : KwArgs) : dropNames [] kw = kw := by simp [dropNames]
+
+theorem dropNames_cons (n : Name) (ns : List Name) (kw : KwArgs) : dropNames (n :: ns) kw = dropNames ns (adel n kw) := by
+  simp only [dropNames, adel, List.filter_filter]
+  congr 1
+  funext kv
+  simp only [List.contains_cons, Bool.not_or, Bool.and_comm]
+
+
+theorem core_withRest (c : Core) (r : KwArgs) : core (c.withRest r) = c := rfl
+theorem withRest_core (st : DelSt) : (core st).withRest st.rest = st := rfl
+
+/-- one iteration of `get_delegate`'s loop, when the parameter is not passed twice: it binds the
+    effective value and strikes the parameter's name from the keywords -/
+theorem delegStep_spec (L : Lattice) (ps : List Param) (args : List Arg) (st : DelSt) (p : Param)
+    (ev : Param → Option Arg)
+    (hev : takes p = true → ev p = effective ps p args st.rest)
+    (hnc : ∀ s, slotOf ps p = some s → given args s = true → ahas p.argName st.rest = false) :
+    delegStep L ps args st p =
+      (bindStep L ev (core st) p).map fun c => c.withRest (if takes p then adel p.argName st.rest else st.rest) := by
+  unfold delegStep bindStep
+  cases hq : p.position with
+  | some q =>
+      simp only
+      by_cases h1 : p.isStar = true
+      · simp [h1, takes, hq, withRest_core]
+      · by_cases h2 : p.hidden = true
+        · simp [h1, h2, takes, hq, core, Core.withRest]
+        · have ht : takes p = true := by simp [takes, hq, h1, h2]
+          have hs : slotOf ps p = some (q - fixAt ps q) := by simp [slotOf, hq, h1, h2]
+          have hev' := hev ht
+          simp only [effective, received, hs] at hev'
+          simp only [h1, h2, Bool.false_eq_true, if_false, ht, if_true]
+          cases hg : given args (q - fixAt ps q) with
+          | true =>
+              have hr := hnc _ hs hg
+              simp only [hg, if_true] at hev'
+              simp only [hr, Bool.false_eq_true, if_false, if_true, hev', Option.bind_some, Option.map_map,
+                adel_of_ahas_false _ _ hr]
+              rfl
+          | false =>
+              simp only [hg, Bool.false_eq_true, if_false] at hev'
+              cases hl : alookup p.argName st.rest with
+              | some a =>
+                  simp only [hl] at hev'
+                  simp only [Bool.false_eq_true, if_false, hev', Option.bind_some, Option.map_map]
+                  rfl
+              | none =>
+                  have hr := alookup_none_ahas _ _ hl
+                  simp only [hl] at hev'
+                  cases hd : p.default with
+                  | some d =>
+                      simp only [hd] at hev'
+                      simp only [Bool.false_eq_true, if_false, hev', Option.bind_some, Option.map_map,
+                        adel_of_ahas_false _ _ hr]
+                      rfl
+                  | none =>
+                      simp only [hd] at hev'
+                      simp only [Bool.false_eq_true, if_false, hev', Option.bind_none, Option.map_none]
+  | none =>
+      simp only
+      by_cases h1 : p.isStarStar = true
+      · simp [h1, takes, hq, withRest_core]
+      · by_cases h2 : p.hidden = true
+        · simp [h1, h2, takes, hq, core, Core.withRest]
+        · have ht : takes p = true := by simp [takes, hq, h1, h2]
+          have hs : slotOf ps p = none := by simp [slotOf, hq]
+          have hev' := hev ht
+          simp only [effective, received, hs] at hev'
+          simp only [h1, h2, Bool.false_eq_true, if_false, ht, if_true]
+          cases hl : alookup p.argName st.rest with
+          | some a =>
+              simp only [hl] at hev'
+              simp only [hev', Option.bind_some, Option.map_map]
+              rfl
+          | none =>
+              have hr := alookup_none_ahas _ _ hl
+              simp only [hl] at hev'
+              cases hd : p.default with
+              | some d =>
+                  simp only [hd] at hev'
+                  simp only [hev', Option.bind_some, Option.map_map, adel_of_ahas_false _ _ hr]
+                  rfl
+              | none =>
+                  simp only [hd] at hev'
+                  simp only [hev', Option.bind_none, Option.map_none]
+
+
+theorem effective_adel (ps : List Param) (p : Param) (args : List Arg) (kw : KwArgs) {k : Name}
+    (hne : p.argName ≠ k) : effective ps p args (adel k kw) = effective ps p args kw := by
+  simp only [effective, received, alookup_adel_other hne]
+
+theorem namesOf_cons (p : Param) (r : List Param) :
+    namesOf (p :: r) = if takes p then p.argName :: namesOf r else namesOf r := by
+  simp only [namesOf, List.filter_cons]
+  split <;> simp
+
+theorem mem_namesOf {p : Param} {l : List Param} (hp : p ∈ l) (ht : takes p = true) : p.argName ∈ namesOf l := by
+  simp only [namesOf, List.mem_map, List.mem_filter]
+  exact ⟨p, ⟨hp, ht⟩, rfl⟩
+
+/-- the loop of `get_delegate`, when no parameter is passed twice and the names are distinct: every
+    parameter is bound to its effective value, and the names of the parameters are struck from the
+    keywords -/
+theorem delegLoop_spec (L : Lattice) (ps : List Param) (args : List Arg) (ev : Param → Option Arg) :
+    ∀ (l : List Param) (st : DelSt), distinct (namesOf l) = true →
+    (∀ p ∈ l, takes p = true → ev p = effective ps p args st.rest) →
+    (∀ p ∈ l, ∀ s, slotOf ps p = some s → given args s = true → ahas p.argName st.rest = false) →
+    delegLoop L ps args st l =
+      (bindLoop L ev (core st) l).map fun c => c.withRest (dropNames (namesOf l) st.rest)
+  | [], st, _, _, _ => by
+      simp only [delegLoop, bindLoop, namesOf, List.filter_nil, List.map_nil, dropNames_nil, Option.map_some,
+        withRest_core]
+  | p :: r, st, hd, hev, hnc => by
+      simp only [delegLoop, bindLoop, delegStep_spec L ps args st p ev (hev p (by simp)) (hnc p (by simp))]
+      cases hb : bindStep L ev (core st) p with
+      | none => rfl
+      | some c1 =>
+          simp only [Option.map_some]
+          rw [namesOf_cons] at hd ⊢
+          by_cases ht : takes p = true
+          · simp only [ht, if_true, distinct, Bool.and_eq_true, Bool.not_eq_true', List.contains_eq_mem,
+              decide_eq_false_iff_not] at hd ⊢
+            have hne : ∀ p' ∈ r, takes p' = true → p'.argName ≠ p.argName := fun p' hp' ht' e =>
+              hd.1 (e ▸ mem_namesOf hp' ht')
+            rw [delegLoop_spec L ps args ev r (c1.withRest (adel p.argName st.rest)) hd.2
+              (fun p' hp' ht' => by
+                rw [hev p' (by simp [hp']) ht']
+                exact (effective_adel ps p' args st.rest (hne p' hp' ht')).symm)
+              (fun p' hp' s hs hg => ahas_adel_false _ _ _ (hnc p' (by simp [hp']) s hs hg))]
+            simp only [core_withRest, dropNames_cons]
+            rfl
+          · simp only [ht, Bool.false_eq_true, if_false] at hd ⊢
+            rw [delegLoop_spec L ps args ev r (c1.withRest st.rest) hd
+              (fun p' hp' ht' => hev p' (by simp [hp']) ht')
+              (fun p' hp' s hs hg => hnc p' (by simp [hp']) s hs hg)]
+            simp only [core_withRest]
+            rfl
+
+
+/-- the part of `get_delegate` after the loop -/
+def finish (L : Lattice) (ps : List Param) (args : List Arg) (st : DelSt) : Option Bound :=
+  let extra? : Option (List Arg) :=
+    if args.length > st.vis then
+      match starParam ps with
+      | some sp => if (args.drop st.vis).all (check L sp.ty) then some (args.drop st.vis) else none
+      | none => none
+    else some []
+  match extra? with
+  | none => none
+  | some extra =>
+      if st.rest.isEmpty then some { pos := st.pos, extra := extra, kw := st.kw }
+      else match starStarParam ps with
+        | some sp =>
+            if st.rest.all (fun kv => check L sp.ty kv.2) then
+              some { pos := st.pos, extra := extra,
+                     kw := st.rest.foldl (fun acc kv => aset kv.1 (.arg kv.2) acc) st.kw }
+            else none
+        | none => none
+
+def core0 (ps : List Param) : Core := ⟨List.replicate (positionalCount ps) none, [], positionalCount ps⟩
+
+theorem getDelegate_eq_finish (L : Lattice) (ps : List Param) (args : List Arg) (kw : KwArgs) :
+    getDelegate L ps args kw = (delegLoop L ps args ((core0 ps).withRest kw) ps).bind (finish L ps args) := by
+  unfold getDelegate
+  simp only [core0, Core.withRest]
+  cases delegLoop L ps args _ ps <;> rfl
+
+theorem finish_congr (L : Lattice) (ps : List Param) {args args' : List Arg} (st : DelSt)
+    (h : args.drop st.vis = args'.drop st.vis) : finish L ps args st = finish L ps args' st := by
+  have hlen : (args.length > st.vis) = (args'.length > st.vis) := by
+    apply propext
+    have h1 := @List.drop_eq_nil_iff _ args st.vis
+    have h2 := @List.drop_eq_nil_iff _ args' st.vis
+    rw [h] at h1
+    have h3 : args.length ≤ st.vis ↔ args'.length ≤ st.vis := h1.symm.trans h2
+    constructor <;> intro hh <;> omega
+  unfold finish
+  simp only [hlen, h]
+
+theorem bindStep_congr (L : Lattice) {ev ev' : Param → Option Arg} (c : Core) (p : Param)
+    (h : takes p = true → ev p = ev' p) : bindStep L ev c p = bindStep L ev' c p := by
+  unfold bindStep
+  cases hq : p.position with
+  | some q =>
+      simp only
+      by_cases h1 : p.isStar = true
+      · simp [h1]
+      · by_cases h2 : p.hidden = true
+        · simp [h1, h2]
+        · rw [h (by simp [takes, hq, h1, h2])]
+  | none =>
+      simp only
+      by_cases h1 : p.isStarStar = true
+      · simp [h1]
+      · by_cases h2 : p.hidden = true
+        · simp [h1, h2]
+        · rw [h (by simp [takes, hq, h1, h2])]
+
+theorem bindLoop_congr (L : Lattice) {ev ev' : Param → Option Arg} : ∀ (l : List Param) (c : Core),
+    (∀ p ∈ l, takes p = true → ev p = ev' p) → bindLoop L ev c l = bindLoop L ev' c l
+  | [], _, _ => rfl
+  | p :: r, c, h => by
+      simp only [bindLoop, bindStep_congr L c p (h p (by simp))]
+      cases bindStep L ev' c p with
+      | none => rfl
+      | some c1 => exact bindLoop_congr L r c1 (fun x hx => h x (by simp [hx]))
+
+/-- what a well-formed table gives the proof: the parameters `get_delegate` binds arguments to are the
+    visible ones other than `*` / `**`, and their names are pairwise distinct -/
+theorem wfDef_takes {ps : List Param} (hwf : wfDef ps = true) :
+    (∀ p ∈ ps, takes p = (!p.hidden && !p.isStar && !p.isStarStar)) ∧ distinct (namesOf ps) = true := by
+  simp only [wfDef, Bool.and_eq_true, List.all_eq_true, List.mem_filter, and_imp, beq_iff_eq] at hwf
+  obtain ⟨⟨⟨⟨⟨⟨_, _⟩, hd⟩, _⟩, _⟩, hstar⟩, hss⟩ := hwf
+  have ht : ∀ p ∈ ps, takes p = (!p.hidden && !p.isStar && !p.isStarStar) := by
+    intro p hp
+    have hex : ¬ (p.isStar = true ∧ p.isStarStar = true) := by
+      simp only [Param.isStar, Param.isStarStar, beq_iff_eq]
+      rintro ⟨a, b⟩; rw [a] at b; cases b
+    unfold takes
+    cases hq : p.position with
+    | some q =>
+        cases h2 : p.isStarStar with
+        | true => have := hss p hp h2; rw [hq] at this; cases this
+        | false => cases p.isStar <;> cases p.hidden <;> rfl
+    | none =>
+        cases h1 : p.isStar with
+        | true => have := hstar p hp h1; rw [hq] at this; cases this
+        | false => cases p.isStarStar <;> cases p.hidden <;> rfl
+  refine ⟨ht, ?_⟩
+  have : namesOf ps = argNames ps := by
+    simp only [namesOf, argNames]
+    congr 1
+    apply List.filter_congr
+    intro p hp
+    rw [ht p hp]
+  rw [this]; exact hd
+
+
+theorem noClash_spec {ps : List Param} {args : List Arg} {kw : KwArgs} (h : noClash ps args kw = true) :
+    ∀ p ∈ ps, ∀ s, slotOf ps p = some s → given args s = true → ahas p.argName kw = false := by
+  intro p hp s hs hg
+  simp only [noClash, List.all_eq_true] at h
+  have := h p hp
+  simpa [hs, hg] using this
+
+/-- **what `get_delegate` binds is a function of the value every parameter receives**, of the arguments
+    beyond the visible slots and of the keywords no parameter takes (when nothing is passed twice) -/
+theorem getDelegate_eq_of_received (L : Lattice) (ps : List Param) (hwf : wfDef ps = true)
+    (args : List Arg) (kw : KwArgs) (hnc : noClash ps args kw = true) :
+    getDelegate L ps args kw =
+      (bindLoop L (fun p => effective ps p args kw) (core0 ps) ps).bind fun c =>
+        finish L ps args (c.withRest (extraKw ps kw)) := by
+  obtain ⟨ht, hd⟩ := wfDef_takes hwf
+  have hn : namesOf ps = argNames ps := by
+    simp only [namesOf, argNames]
+    congr 1
+    apply List.filter_congr
+    intro p hp
+    rw [ht p hp]
+  rw [getDelegate_eq_finish,
+    delegLoop_spec L ps args (fun p => effective ps p args kw) ps ((core0 ps).withRest kw) hd
+      (fun _ _ _ => rfl) (noClash_spec hnc)]
+  rw [core_withRest, hn]
+  cases bindLoop L (fun p => effective ps p args kw) (core0 ps) ps <;> rfl
+
+/-- an argument passed twice - in its slot and by keyword - is an ArgumentException -/
+theorem delegLoop_clash (L : Lattice) (ps : List Param) (args : List Arg) : ∀ (l : List Param) (st : DelSt),
+    distinct (namesOf l) = true →
+    (∃ p ∈ l, ∃ s, slotOf ps p = some s ∧ given args s = true ∧ ahas p.argName st.rest = true) →
+    delegLoop L ps args st l = none
+  | [], _, _, h => by obtain ⟨p, hp, _⟩ := h; cases hp
+  | x :: r, st, hd, h => by
+      simp only [delegLoop]
+      by_cases hx : ∃ s, slotOf ps x = some s ∧ given args s = true ∧ ahas x.argName st.rest = true
+      · obtain ⟨s, hs, hg, hk⟩ := hx
+        have : delegStep L ps args st x = none := by
+          unfold slotOf at hs
+          unfold delegStep
+          cases hq : x.position with
+          | none => simp [hq] at hs
+          | some q =>
+              simp only [hq] at hs
+              by_cases hsh : (x.isStar || x.hidden) = true
+              · simp [hsh] at hs
+              · simp only [hsh, Bool.false_eq_true, if_false, Option.some.injEq] at hs
+                simp only [Bool.or_eq_true, not_or, Bool.not_eq_true] at hsh
+                simp only [hsh.1, hsh.2, Bool.false_eq_true, if_false, hs, hg, hk, if_true]
+        simp only [this]
+      · have hnc : ∀ s, slotOf ps x = some s → given args s = true → ahas x.argName st.rest = false := by
+          intro s hs hg
+          cases hk : ahas x.argName st.rest with
+          | false => rfl
+          | true => exact absurd ⟨s, hs, hg, hk⟩ hx
+        rw [delegStep_spec L ps args st x (fun p => effective ps p args st.rest) (fun _ => rfl) hnc]
+        cases hb : bindStep L (fun p => effective ps p args st.rest) (core st) x with
+        | none => rfl
+        | some c1 =>
+            simp only [Option.map_some]
+            obtain ⟨p, hp, s, hs, hg, hk⟩ := h
+            have hpr : p ∈ r := by
+              rcases List.mem_cons.1 hp with rfl | hpr
+              · exact absurd ⟨s, hs, hg, hk⟩ hx
+              · exact hpr
+            have htp : takes p = true := by
+              unfold slotOf at hs
+              unfold takes
+              cases hq : p.position with
+              | none => simp [hq] at hs
+              | some q =>
+                  simp only [hq] at hs
+                  by_cases hsh : (p.isStar || p.hidden) = true
+                  · simp [hsh] at hs
+                  · simp only [Bool.or_eq_true, not_or, Bool.not_eq_true] at hsh
+                    simp [hsh.1, hsh.2]
+            rw [namesOf_cons] at hd
+            by_cases htx : takes x = true
+            · simp only [htx, if_true, distinct, Bool.and_eq_true, Bool.not_eq_true', List.contains_eq_mem,
+                decide_eq_false_iff_not] at hd
+              have hne : p.argName ≠ x.argName := fun e => hd.1 (e ▸ mem_namesOf hpr htp)
+              apply delegLoop_clash L ps args r _ hd.2
+              refine ⟨p, hpr, s, hs, hg, ?_⟩
+              simp only [htx, if_true, Core.withRest, ahas_adel_other hne, hk]
+            · simp only [htx, Bool.false_eq_true, if_false] at hd
+              apply delegLoop_clash L ps args r _ hd
+              exact ⟨p, hpr, s, hs, hg, by simpa [htx, Core.withRest] using hk⟩
+
+theorem getDelegate_clash (L : Lattice) (ps : List Param) (hwf : wfDef ps = true)
+    (args : List Arg) (kw : KwArgs) (hc : noClash ps args kw = false) : getDelegate L ps args kw = none := by
+  obtain ⟨_, hd⟩ := wfDef_takes hwf
+  rw [getDelegate_eq_finish, delegLoop_clash L ps args ps _ hd]
+  · rfl
+  · simp only [noClash, List.all_eq_false] at hc
+    obtain ⟨p, hp, hc⟩ := hc
+    cases hs : slotOf ps p with
+    | none => simp [hs] at hc
+    | some s =>
+        simp only [hs, Bool.not_eq_true, Bool.not_eq_false', Bool.and_eq_true] at hc
+        exact ⟨p, hp, s, hs, hc.1, hc.2⟩
+
+/-- the number of visible slots after the loop -/
+theorem bindLoop_vis (L : Lattice) (ev : Param → Option Arg) : ∀ (l : List Param) (c c' : Core),
+    bindLoop L ev c l = some c' → c'.vis = c.vis - (l.filter hiddenPositional).length
+  | [], c, c', h => by simp [bindLoop] at h; subst h; simp
+  | p :: r, c, c', h => by
+      simp only [bindLoop] at h
+      cases hs : bindStep L ev c p with
+      | none => simp [hs] at h
+      | some c1 =>
+          simp only [hs] at h
+          have ih := bindLoop_vis L ev r c1 c' h
+          have hv : c1.vis = c.vis - (if hiddenPositional p then 1 else 0) := by
+            unfold bindStep at hs
+            cases hq : p.position with
+            | some q =>
+                simp only [hq] at hs
+                by_cases h1 : p.isStar = true
+                · simp [h1] at hs; subst hs; simp [hiddenPositional, h1]
+                · by_cases h2 : p.hidden = true
+                  · simp [h1, h2] at hs; subst hs; simp [hiddenPositional, hq, h1, h2]
+                  · simp only [h1, h2, Bool.false_eq_true, if_false, Option.bind_eq_some_iff,
+                      Option.map_eq_some_iff] at hs
+                    obtain ⟨_, _, _, _, rfl⟩ := hs
+                    simp [hiddenPositional, h2]
+            | none =>
+                simp only [hq] at hs
+                by_cases h1 : p.isStarStar = true
+                · simp [h1] at hs; subst hs; simp [hiddenPositional, hq]
+                · by_cases h2 : p.hidden = true
+                  · simp [h1, h2] at hs; subst hs; simp [hiddenPositional, hq]
+                  · simp only [h1, h2, Bool.false_eq_true, if_false, Option.bind_eq_some_iff,
+                      Option.map_eq_some_iff] at hs
+                    obtain ⟨_, _, _, _, rfl⟩ := hs
+                    simp [hiddenPositional, h2]
+          rw [ih, hv]
+          simp only [List.filter_cons]
+          split <;> simp <;> omega
+
+/-- **all ways of passing the same arguments bind the same vector** (the corrected whole-vector
+    statement): two spellings of a call of a well-formed definition in which every named parameter ends up
+    with the same value - passed in its slot, by keyword under its name in any order, or (defaulted) left
+    out, skipped with an empty slot or written out - with the same arguments beyond the named slots (`*`'s
+    share) and the same keywords that no parameter takes (`**`'s share), and which either both or neither
+    pass some argument twice, make `get_delegate` bind the same vector or fail alike -/
+def spelling_equiv_full : Prop :=
+  ∀ (L : Lattice) (ps : List Param), wfDef ps = true →
+    ∀ (args args' : List Arg) (kw kw' : KwArgs),
+      (∀ p ∈ ps, p.hidden = false → p.isStar = false → p.isStarStar = false →
+        effective ps p args kw = effective ps p args' kw') →
+      args.drop (visCount ps) = args'.drop (visCount ps) →
+      extraKw ps kw = extraKw ps kw' →
+      noClash ps args kw = noClash ps args' kw' →
+      getDelegate L ps args kw = getDelegate L ps args' kw'
+
+theorem spelling_equiv : spelling_equiv_full := by
+  intro L ps hwf args args' kw kw' hval hstar hextra hclash
+  cases hc : noClash ps args kw with
+  | false => rw [getDelegate_clash L ps hwf args kw hc, getDelegate_clash L ps hwf args' kw' (hclash ▸ hc)]
+  | true =>
+      obtain ⟨ht, _⟩ := wfDef_takes hwf
+      rw [getDelegate_eq_of_received L ps hwf args kw hc,
+        getDelegate_eq_of_received L ps hwf args' kw' (hclash ▸ hc), hextra,
+        bindLoop_congr L (ev := fun p => effective ps p args kw) (ev' := fun p => effective ps p args' kw') ps _
+          (fun p hp htp => by
+            rw [ht p hp] at htp
+            simp only [Bool.and_eq_true, Bool.not_eq_true'] at htp
+            exact hval p hp htp.1.1 htp.1.2 htp.2)]
+      cases hb : bindLoop L (fun p => effective ps p args' kw') (core0 ps) ps with
+      | none => rfl
+      | some c =>
+          have hv := bindLoop_vis L _ ps _ c hb
+          simp only [Option.bind_some]
+          apply finish_congr
+          simp only [Core.withRest, hv, core0]
+          exact hstar
+
+/-- the first version of the statement (same received values, no guards) follows wherever its two
+    missing guards hold -/
+theorem spelling_equiv_of_received (L : Lattice) (ps : List Param) (hwf : wfDef ps = true)
+    (args args' : List Arg) (kw kw' : KwArgs)
+    (hval : ∀ p ∈ ps, p.hidden = false → p.isStar = false → p.isStarStar = false →
+      received ps p args kw = received ps p args' kw')
+    (hstar : args.drop (visCount ps) = args'.drop (visCount ps))
+    (hextra : extraKw ps kw = extraKw ps kw') (hclash : noClash ps args kw = noClash ps args' kw') :
+    getDelegate L ps args kw = getDelegate L ps args' kw' :=
+  spelling_equiv L ps hwf args args' kw kw'
+    (fun p hp h1 h2 h3 => by simp only [effective, hval p hp h1 h2 h3]) hstar hextra hclash
+
+namespace Ex12
+open C05.Ex
+def pa : Param := pos 'a' 0 (cls 4)
+def pb : Param := { pos 'b' 1 (cls 4) with default := some (.value dVal) }
+def pkw : Param := { key := .starstar, name := ['k'], alias := none, position := none, default := none, ty := cls 4 }
+def v : Arg := .value dVal
+def v' : Arg := .value (.obj 4 [] 2)
+def psab : List Param := [pa, pb]
+end Ex12
+
+open Ex12 in
+/-- the unguarded statement is false: `f(x, a => x)` passes `a` twice and is rejected, `f(x)` is bound;
+    both give `a` the same received value `x` -/
+theorem spelling_equiv_unguarded_false : ¬ spelling_equiv_unguarded := by
+  intro h
+  have h1 := h C05.Ex.lat [pa] (by decide) [v] [v] [(['a'], v')] []
+    (by intro p hp; simp only [List.mem_singleton] at hp; subst hp; intros; decide) (by decide)
+  exact absurd h1 (by decide)
+
+open Ex12 in
+/-- each guard of `spelling_equiv_full` is needed: without `noClash .. = noClash ..` the witness above;
+    without `extraKw .. = extraKw ..` a keyword that no parameter takes (`f(x, z => x)`: rejected; with a
+    `**` parameter: another `**` dictionary); the remaining hypotheses hold in all three -/
+example :
+    (wfDef [pa] = true ∧ effective [pa] pa [v] [(['a'], v')] = effective [pa] pa [v] [] ∧
+      extraKw [pa] [(['a'], v')] = extraKw [pa] [] ∧
+      getDelegate C05.Ex.lat [pa] [v] [(['a'], v')] ≠ getDelegate C05.Ex.lat [pa] [v] []) ∧
+    (effective [pa] pa [v] [(['z'], v)] = effective [pa] pa [v] [] ∧
+      noClash [pa] [v] [(['z'], v)] = noClash [pa] [v] [] ∧
+      getDelegate C05.Ex.lat [pa] [v] [(['z'], v)] ≠ getDelegate C05.Ex.lat [pa] [v] []) ∧
+    (wfDef [pa, pkw] = true ∧ effective [pa, pkw] pa [v] [(['z'], v)] = effective [pa, pkw] pa [v] [(['y'], v)] ∧
+      noClash [pa, pkw] [v] [(['z'], v)] = noClash [pa, pkw] [v] [(['y'], v)] ∧
+      (getDelegate C05.Ex.lat [pa, pkw] [v] [(['z'], v)]).isSome = true ∧
+      getDelegate C05.Ex.lat [pa, pkw] [v] [(['z'], v)] ≠ getDelegate C05.Ex.lat [pa, pkw] [v] [(['y'], v)]) := by
+  decide
+
+open Ex12 in
+/-- non-vacuity of `spelling_equiv`: `f(a, b = d)` called as `f(x)`, `f(x, d)`, `f(x, <empty>)`,
+    `f(b => d, a => x)`, `f(a => x)`, `f(x, b => d)`: the hypotheses hold pairwise with the first and the vector is bound -/
+example :
+    wfDef psab = true ∧ (getDelegate C05.Ex.lat psab [v'] []).isSome = true ∧
+    ([([v', v], []), ([v', .noValue], []), ([], [(['b'], v), (['a'], v')]), ([], [(['a'], v')]),
+      ([v'], [(['b'], v)])] : List (List Arg × KwArgs)).all (fun sp =>
+        psab.all (fun p => effective psab p sp.1 sp.2 == effective psab p [v'] []) &&
+        sp.1.drop (visCount psab) == ([v'] : List Arg).drop (visCount psab) &&
+        extraKw psab sp.2 == extraKw psab [] && noClash psab sp.1 sp.2 == noClash psab [v'] [] &&
+        getDelegate C05.Ex.lat psab sp.1 sp.2 == getDelegate C05.Ex.lat psab [v'] []) = true := by
+  decide
+
+/-! ## map_args on the whole argument vector -/
+
+/-- the slot `map_args` enters `p` into (given that `p` is not passed twice and has a value) -/
+def claim (ps : List Param) (args : List Arg) (rest : KwArgs) (p : Param) : Option Nat :=
+  match slotOf ps p with
+  | some s =>
+      if given args s then some s
+      else if ahas p.argName rest then none
+      else if s < args.length then some s else none
+  | none => none
+
+/-- the final loop of `map_args` at one slot -/
+def goodV (L : Lattice) (a : Arg) (o : Option Param) : Bool :=
+  match o with
+  | some p => check L p.ty (if a.isNoValue then p.default.getD .noValue else a)
+  | none => false
+
+theorem posOk_of_good (L : Lattice) : ∀ (pos : List (Option Param)) (args : List Arg),
+    pos.length = args.length →
+    (∀ i, i < pos.length → goodV L (args.getD i .noValue) (pos.getD i none) = true) → posOk L pos args = true
+  | [], _, _, _ => by simp [posOk]
+  | o :: r, [], h, _ => by simp at h
+  | o :: r, a :: as, h, hg => by
+      have h0 := hg 0 (by simp)
+      simp only [List.getD_cons_zero] at h0
+      cases o with
+      | none => simp [goodV] at h0
+      | some p =>
+          simp only [goodV] at h0
+          simp only [posOk, h0, Bool.true_and]
+          apply posOk_of_good L r as (by simpa using h)
+          intro i hi
+          have := hg (i + 1) (by simp; omega)
+          simpa using this
+
+theorem isNoValue_eq {a : Arg} (h : a.isNoValue = true) : a = .noValue := by
+  cases a <;> simp [Arg.isNoValue] at h ⊢
+
+theorem given_false_lt {args : List Arg} {s : Nat} (hg : given args s = false) (hs : s < args.length) :
+    (args.getD s .noValue).isNoValue = true := by
+  simp only [given, List.getElem?_eq_getElem hs, Bool.not_eq_false'] at hg
+  simp only [List.getD_eq_getElem?_getD, List.getElem?_eq_getElem hs, Option.getD_some, hg]
+
+theorem given_true_val {args : List Arg} {s : Nat} (hg : given args s = true) :
+    s < args.length ∧ (args.getD s .noValue).isNoValue = false := by
+  simp only [given] at hg
+  cases h : args[s]? with
+  | none => simp [h] at hg
+  | some a =>
+      simp only [h, Bool.not_eq_true'] at hg
+      have hlt : s < args.length := by
+        rcases Nat.lt_or_ge s args.length with hl | hl
+        · exact hl
+        · rw [List.getElem?_eq_none hl] at h; cases h
+      exact ⟨hlt, by simp [List.getD_eq_getElem?_getD, h, hg]⟩
+
+/-- whoever enters a slot passes the final check of `map_args` there, if `get_delegate` accepts its value -/
+theorem claim_good (L : Lattice) (ps : List Param) (args : List Arg) (rest : KwArgs) (p : Param) (s : Nat) (v : Arg)
+    (hc : claim ps args rest p = some s) (he : effective ps p args rest = some v) (hv : check L p.ty v = true) :
+    s < args.length ∧ goodV L (args.getD s .noValue) (some p) = true := by
+  unfold claim at hc
+  cases hs : slotOf ps p with
+  | none => simp [hs] at hc
+  | some s' =>
+      simp only [hs] at hc
+      simp only [effective, received, hs] at he
+      cases hg : given args s' with
+      | true =>
+          simp only [hg, if_true, Option.some.injEq] at hc he
+          subst hc
+          obtain ⟨hlt, hnv⟩ := given_true_val hg
+          refine ⟨hlt, ?_⟩
+          rw [he] at hnv
+          simp only [goodV, he, hnv, Bool.false_eq_true, if_false, hv]
+      | false =>
+          simp only [hg, Bool.false_eq_true, if_false] at hc he
+          cases hk : ahas p.argName rest with
+          | true => simp [hk] at hc
+          | false =>
+              simp only [hk, Bool.false_eq_true, if_false] at hc
+              split at hc
+              · rename_i hlt
+                simp only [Option.some.injEq] at hc
+                subst hc
+                refine ⟨hlt, ?_⟩
+                simp only [ahas_false_lookup _ _ hk] at he
+                simp only [goodV, given_false_lt hg hlt, if_true, he, Option.getD_some, hv]
+              · cases hc
+
+/-- one iteration of the loop of `map_args` for a parameter that is not passed twice and has a value -/
+theorem mapStep_spec (ps : List Param) (args : List Arg) (st : MapSt) (p : Param)
+    (hnc : ∀ s, slotOf ps p = some s → given args s = true → ahas p.argName st.rest = false)
+    (hv : takes p = true → (effective ps p args st.rest).isSome = true) :
+    ∃ st1, mapStep ps args st p = some st1 ∧
+      st1.rest = (if takes p then adel p.argName st.rest else st.rest) ∧
+      st1.pos = (match claim ps args st.rest p with | some s => st.pos.set s (some p) | none => st.pos) := by
+  unfold mapStep
+  cases hq : p.position with
+  | some q =>
+      simp only
+      by_cases h1 : p.isStar = true
+      · exact ⟨st, by simp [h1], by simp [takes, hq, h1], by simp [claim, slotOf, hq, h1]⟩
+      · by_cases h2 : p.hidden = true
+        · exact ⟨st, by simp [h1, h2], by simp [takes, hq, h1, h2], by simp [claim, slotOf, hq, h1, h2]⟩
+        · have ht : takes p = true := by simp [takes, hq, h1, h2]
+          have hs : slotOf ps p = some (q - fixAt ps q) := by simp [slotOf, hq, h1, h2]
+          have hv' := hv ht
+          simp only [effective, received, hs] at hv'
+          simp only [h1, h2, Bool.false_eq_true, if_false, ht, if_true, claim, hs]
+          cases hg : given args (q - fixAt ps q) with
+          | true =>
+              have hr := hnc _ hs hg
+              simp only [hr, if_true, Bool.false_eq_true, if_false, adel_of_ahas_false _ _ hr]
+              exact ⟨_, rfl, rfl, rfl⟩
+          | false =>
+              simp only [hg, Bool.false_eq_true, if_false] at hv' ⊢
+              cases hk : ahas p.argName st.rest with
+              | true =>
+                  simp only [if_true]
+                  exact ⟨_, rfl, rfl, rfl⟩
+              | false =>
+                  simp only [ahas_false_lookup _ _ hk] at hv'
+                  cases hd : p.default with
+                  | none => simp [hd] at hv'
+                  | some d =>
+                      simp only [Bool.false_eq_true, if_false, Option.isNone_some, adel_of_ahas_false _ _ hk]
+                      by_cases hlt : q - fixAt ps q < args.length
+                      · simp only [hlt, if_true]
+                        exact ⟨_, rfl, rfl, rfl⟩
+                      · simp only [hlt, if_false]
+                        exact ⟨_, rfl, rfl, rfl⟩
+  | none =>
+      simp only
+      by_cases h1 : p.isStarStar = true
+      · exact ⟨st, by simp [h1], by simp [takes, hq, h1], by simp [claim, slotOf, hq]⟩
+      · by_cases h2 : p.hidden = true
+        · exact ⟨st, by simp [h1, h2], by simp [takes, hq, h1, h2], by simp [claim, slotOf, hq]⟩
+        · have ht : takes p = true := by simp [takes, hq, h1, h2]
+          have hs : slotOf ps p = none := by simp [slotOf, hq]
+          have hv' := hv ht
+          simp only [effective, received, hs] at hv'
+          simp only [h1, h2, Bool.false_eq_true, if_false, ht, if_true, claim, hs]
+          cases hk : ahas p.argName st.rest with
+          | true =>
+              simp only [if_true]
+              exact ⟨_, rfl, rfl, rfl⟩
+          | false =>
+              simp only [ahas_false_lookup _ _ hk] at hv'
+              cases hd : p.default with
+              | none => simp [hd] at hv'
+              | some d =>
+                  simp only [Bool.false_eq_true, if_false, Option.isNone_some, adel_of_ahas_false _ _ hk]
+                  exact ⟨_, rfl, rfl, rfl⟩
+
+
+theorem getD_set_self' {α : Type} {l : List α} {i : Nat} (a d : α) (h : i < l.length) : (l.set i a).getD i d = a := by
+  simp only [List.getD_eq_getElem?_getD, List.getElem?_set_self h, Option.getD_some]
+
+theorem getD_set_ne' {α : Type} {l : List α} {s i : Nat} (a d : α) (h : s ≠ i) : (l.set s a).getD i d = l.getD i d := by
+  simp only [List.getD_eq_getElem?_getD, List.getElem?_set_ne h]
+
+theorem takes_of_slot {ps : List Param} {p : Param} {s : Nat} (hs : slotOf ps p = some s) : takes p = true := by
+  unfold slotOf at hs
+  unfold takes
+  cases hq : p.position with
+  | none => simp [hq] at hs
+  | some q =>
+      simp only [hq] at hs
+      by_cases hsh : (p.isStar || p.hidden) = true
+      · simp [hsh] at hs
+      · simp only [Bool.or_eq_true, not_or, Bool.not_eq_true] at hsh
+        simp [hsh.1, hsh.2]
+
+theorem claim_slot {ps : List Param} {args : List Arg} {rest : KwArgs} {p : Param} {i : Nat}
+    (h : claim ps args rest p = some i) : slotOf ps p = some i := by
+  unfold claim at h
+  cases hs : slotOf ps p with
+  | none => simp [hs] at h
+  | some s =>
+      simp only [hs] at h
+      split at h
+      · exact h
+      · split at h
+        · cases h
+        · split at h
+          · exact h
+          · cases h
+
+theorem claim_adel (ps : List Param) (args : List Arg) (rest : KwArgs) (p : Param) {k : Name}
+    (hne : p.argName ≠ k) : claim ps args (adel k rest) p = claim ps args rest p := by
+  simp only [claim, ahas_adel_other hne]
+
+/-- the loop of `map_args` on a vector that `get_delegate` binds: it succeeds, strikes the parameters'
+    names from the keywords, and every slot that was fine before or is entered by someone is fine after -/
+theorem mapLoop_spec (L : Lattice) (ps : List Param) (args : List Arg) : ∀ (l : List Param) (st : MapSt),
+    distinct (namesOf l) = true → st.pos.length = args.length →
+    (∀ p ∈ l, ∀ s, slotOf ps p = some s → given args s = true → ahas p.argName st.rest = false) →
+    (∀ p ∈ l, takes p = true → ∃ v, effective ps p args st.rest = some v ∧ check L p.ty v = true) →
+    ∃ st', mapLoop ps args st l = some st' ∧ st'.rest = dropNames (namesOf l) st.rest ∧
+      st'.pos.length = args.length ∧
+      ∀ i, (goodV L (args.getD i .noValue) (st.pos.getD i none) = true ∨ ∃ p ∈ l, claim ps args st.rest p = some i) →
+        goodV L (args.getD i .noValue) (st'.pos.getD i none) = true
+  | [], st, _, hlen, _, _ => by
+      refine ⟨st, rfl, by simp [namesOf, dropNames_nil], hlen, ?_⟩
+      rintro i (h | ⟨p, hp, _⟩)
+      · exact h
+      · cases hp
+  | p :: r, st, hd, hlen, hnc, hval => by
+      obtain ⟨st1, hstep, hrest1, hpos1⟩ := mapStep_spec ps args st p (hnc p (by simp))
+        (fun ht => by obtain ⟨v, hv, _⟩ := hval p (by simp) ht; simp [hv])
+      -- slot `i` after the step of `p`
+      have hgood1 : ∀ i, (goodV L (args.getD i .noValue) (st.pos.getD i none) = true ∨ claim ps args st.rest p = some i) →
+          goodV L (args.getD i .noValue) (st1.pos.getD i none) = true := by
+        intro i hi
+        cases hc : claim ps args st.rest p with
+        | none =>
+            simp only [hc] at hpos1
+            rw [hpos1]
+            rcases hi with h | h
+            · exact h
+            · rw [hc] at h; cases h
+        | some s =>
+            simp only [hc] at hpos1
+            obtain ⟨v, hv, hcv⟩ := hval p (by simp) (takes_of_slot (claim_slot hc))
+            obtain ⟨hlt, hg⟩ := claim_good L ps args st.rest p s v hc hv hcv
+            by_cases hsi : s = i
+            · subst hsi
+              rw [hpos1, getD_set_self' _ _ (by omega)]
+              exact hg
+            · rw [hpos1, getD_set_ne' _ _ hsi]
+              rcases hi with h | h
+              · exact h
+              · rw [hc] at h; exact absurd (Option.some.inj h) hsi
+      have hlen1 : st1.pos.length = args.length := by
+        rw [hpos1]; split <;> simp [hlen]
+      rw [namesOf_cons] at hd ⊢
+      simp only [mapLoop, hstep]
+      by_cases ht : takes p = true
+      · simp only [ht, if_true, distinct, Bool.and_eq_true, Bool.not_eq_true', List.contains_eq_mem,
+          decide_eq_false_iff_not] at hd hrest1 ⊢
+        have hne : ∀ p' ∈ r, takes p' = true → p'.argName ≠ p.argName := fun p' hp' ht' e =>
+          hd.1 (e ▸ mem_namesOf hp' ht')
+        obtain ⟨st', hl, hr', hlen', hg'⟩ := mapLoop_spec L ps args r st1 hd.2 hlen1
+          (fun p' hp' s hs hg => by
+            rw [hrest1]; exact ahas_adel_false _ _ _ (hnc p' (by simp [hp']) s hs hg))
+          (fun p' hp' ht' => by
+            rw [hrest1, effective_adel ps p' args st.rest (hne p' hp' ht')]
+            exact hval p' (by simp [hp']) ht')
+        refine ⟨st', hl, by rw [hr', hrest1, dropNames_cons], hlen', ?_⟩
+        intro i hi
+        apply hg'
+        rcases hi with h | ⟨p', hp', hc⟩
+        · exact Or.inl (hgood1 i (Or.inl h))
+        · rcases List.mem_cons.1 hp' with rfl | hpr
+          · exact Or.inl (hgood1 i (Or.inr hc))
+          · refine Or.inr ⟨p', hpr, ?_⟩
+            rw [hrest1, claim_adel ps args st.rest p' (hne p' hpr (takes_of_slot (claim_slot hc)))]
+            exact hc
+      · simp only [ht, Bool.false_eq_true, if_false] at hd hrest1 ⊢
+        obtain ⟨st', hl, hr', hlen', hg'⟩ := mapLoop_spec L ps args r st1 hd hlen1
+          (fun p' hp' s hs hg => by rw [hrest1]; exact hnc p' (by simp [hp']) s hs hg)
+          (fun p' hp' ht' => by rw [hrest1]; exact hval p' (by simp [hp']) ht')
+        refine ⟨st', hl, by rw [hr', hrest1], hlen', ?_⟩
+        intro i hi
+        apply hg'
+        rcases hi with h | ⟨p', hp', hc⟩
+        · exact Or.inl (hgood1 i (Or.inl h))
+        · rcases List.mem_cons.1 hp' with rfl | hpr
+          · exact Or.inl (hgood1 i (Or.inr hc))
+          · exact Or.inr ⟨p', hpr, by rw [hrest1]; exact hc⟩
+
+
+theorem alookup_aset {α : Type} (k k' : Name) (v : α) : ∀ (l : List (Name × α)),
+    alookup k (aset k' v l) = if k' == k then some v else alookup k l
+  | [] => by simp [aset, alookup]
+  | (k'', x) :: r => by
+      simp only [aset]
+      by_cases h1 : (k'' == k') = true
+      · have e1 : k'' = k' := by simpa using h1
+        subst e1
+        by_cases h2 : (k'' == k) = true <;> simp [h2, alookup]
+      · simp only [h1, Bool.false_eq_true, if_false, alookup, alookup_aset k k' v r]
+        by_cases h2 : (k'' == k) = true
+        · have e2 : k'' = k := by simpa using h2
+          subst e2
+          have h3 : (k' == k'') = false := by
+            cases h : k' == k'' with
+            | false => rfl
+            | true => exact absurd (by simpa using (beq_iff_eq.1 h).symm) h1
+          simp [h3]
+        · simp [h2]
+
+theorem alookup_foldl_aset {α : Type} (sp : α) (k : Name) : ∀ (rest : KwArgs) (acc : List (Name × α)),
+    (ahas k rest = true ∨ alookup k acc = some sp) →
+    alookup k (rest.foldl (fun acc kv => aset kv.1 sp acc) acc) = some sp
+  | [], acc, h => by
+      rcases h with h | h
+      · simp [ahas] at h
+      · exact h
+  | kv :: r, acc, h => by
+      simp only [List.foldl_cons]
+      apply alookup_foldl_aset sp k r
+      rw [alookup_aset]
+      by_cases hk : (kv.1 == k) = true
+      · exact Or.inr (by simp [hk])
+      · rcases h with h | h
+        · simp only [ahas, List.any_cons, Bool.or_eq_true] at h
+          rcases h with h | h
+          · exact absurd h hk
+          · exact Or.inl (by simpa [ahas] using h)
+        · exact Or.inr (by simp [hk, h])
+
+/-- the part of `map_args` after the loop -/
+def mapFinish (L : Lattice) (ps : List Param) (args : List Arg) (kwargs : KwArgs) (st : MapSt) : Option Mapping :=
+  let kwd? : Option (List (Name × Param)) :=
+    if st.rest.isEmpty then some st.kwd
+    else match starStarParam ps with
+      | some sp => some (st.rest.foldl (fun acc kv => aset kv.1 sp acc) st.kwd)
+      | none => none
+  match kwd? with
+  | none => none
+  | some kwd =>
+      if !posOk L st.pos args then none
+      else if !(st.rest.all fun kv => checkOpt L (alookup kv.1 kwd) kv.2) then none
+      else some { pos := st.pos.filterMap id,
+                  kwd := kwargs.filterMap fun kv => (alookup kv.1 kwd).map fun p => (kv.1, p) }
+
+theorem mapArgs_eq_finish (L : Lattice) (ps : List Param) (args : List Arg) (kw : KwArgs) :
+    mapArgs L ps args kw =
+      (mapLoop ps args { pos := List.replicate args.length (starParam ps), kwd := [], rest := kw } ps).bind
+        (mapFinish L ps args kw) := by
+  unfold mapArgs
+  dsimp only
+  cases mapLoop ps args _ ps <;> rfl
+
+theorem mapFinish_isSome (L : Lattice) (ps : List Param) (args : List Arg) (kw : KwArgs) (st : MapSt)
+    (hpos : posOk L st.pos args = true)
+    (hrest : st.rest.isEmpty = true ∨
+      ∃ sp, starStarParam ps = some sp ∧ st.rest.all (fun kv => check L sp.ty kv.2) = true) :
+    (mapFinish L ps args kw st).isSome = true := by
+  unfold mapFinish
+  rcases hrest with he | ⟨sp, hsp, hall⟩
+  · have : st.rest = [] := by simpa using he
+    simp [he, hpos, this]
+  · by_cases he : st.rest.isEmpty = true
+    · have : st.rest = [] := by simpa using he
+      simp [he, hpos, this]
+    · have hchk : (st.rest.all fun kv =>
+          checkOpt L (alookup kv.1 (st.rest.foldl (fun acc kv => aset kv.1 sp acc) st.kwd)) kv.2) = true := by
+        rw [List.all_eq_true] at hall ⊢
+        intro kv hkv
+        have hh : ahas kv.1 st.rest = true := by
+          simp only [ahas, List.any_eq_true]
+          exact ⟨kv, hkv, by simp⟩
+        rw [alookup_foldl_aset sp kv.1 st.rest st.kwd (Or.inl hh)]
+        exact hall kv hkv
+      simp only [he, Bool.false_eq_true, if_false, hsp, hpos, Bool.not_true, hchk, Option.isSome_some]
+
+theorem bindLoop_checks (L : Lattice) (ev : Param → Option Arg) : ∀ (l : List Param) (c c' : Core),
+    bindLoop L ev c l = some c' → ∀ p ∈ l, takes p = true → ∃ v, ev p = some v ∧ check L p.ty v = true
+  | [], _, _, _, p, hp, _ => by cases hp
+  | x :: r, c, c', h, p, hp, ht => by
+      simp only [bindLoop] at h
+      cases hs : bindStep L ev c x with
+      | none => simp [hs] at h
+      | some c1 =>
+          simp only [hs] at h
+          rcases List.mem_cons.1 hp with rfl | hpr
+          · unfold bindStep at hs
+            unfold takes at ht
+            cases hq : p.position with
+            | some q =>
+                simp only [hq, Bool.and_eq_true, Bool.not_eq_true'] at hs ht
+                simp only [ht.1, ht.2, Bool.false_eq_true, if_false, Option.bind_eq_some_iff,
+                  Option.map_eq_some_iff, checked] at hs
+                obtain ⟨v, hv, sl, hc, _⟩ := hs
+                refine ⟨v, hv, ?_⟩
+                split at hc
+                · assumption
+                · cases hc
+            | none =>
+                simp only [hq, Bool.and_eq_true, Bool.not_eq_true'] at hs ht
+                simp only [ht.1, ht.2, Bool.false_eq_true, if_false, Option.bind_eq_some_iff,
+                  Option.map_eq_some_iff, checked] at hs
+                obtain ⟨v, hv, sl, hc, _⟩ := hs
+                refine ⟨v, hv, ?_⟩
+                split at hc
+                · assumption
+                · cases hc
+          · exact bindLoop_checks L ev r c1 c' h p hpr ht
+
+theorem finish_some {L : Lattice} {ps : List Param} {args : List Arg} {st : DelSt} {b : Bound}
+    (h : finish L ps args st = some b) :
+    (args.length > st.vis → ∃ sp, starParam ps = some sp ∧ (args.drop st.vis).all (check L sp.ty) = true) ∧
+    (st.rest.isEmpty = true ∨ ∃ sp, starStarParam ps = some sp ∧ st.rest.all (fun kv => check L sp.ty kv.2) = true) := by
+  unfold finish at h
+  constructor
+  · intro hlen
+    simp only [hlen, if_true] at h
+    cases hsp : starParam ps with
+    | none => simp [hsp] at h
+    | some sp =>
+        refine ⟨sp, rfl, ?_⟩
+        cases hall : (args.drop st.vis).all (check L sp.ty) with
+        | true => rfl
+        | false => simp [hsp, hall] at h
+  · by_cases he : st.rest.isEmpty = true
+    · exact Or.inl he
+    · right
+      simp only [he, Bool.false_eq_true, if_false] at h
+      split at h
+      · cases h
+      · cases hsp : starStarParam ps with
+        | none => simp [hsp] at h
+        | some sp =>
+            refine ⟨sp, rfl, ?_⟩
+            cases hall : st.rest.all (fun kv => check L sp.ty kv.2) with
+            | true => rfl
+            | false => simp [hsp, hall] at h
+
+/-- every argument slot below `visCount` that the call writes (filled or empty) is entered by its
+    parameter: there is no empty slot whose parameter comes by keyword instead -/
+def slotsClaimed (ps : List Param) (args : List Arg) (kw : KwArgs) : Bool :=
+  (List.range (min args.length (visCount ps))).all fun i => ps.any fun p => claim ps args kw p == some i
+
+/-- **a vector that `get_delegate` binds passes `map_args`**, in every spelling that has no empty slot
+    whose parameter comes by keyword (the `*` parameter having no default) -/
+theorem mapArgs_of_getDelegate (L : Lattice) (ps : List Param) (hwf : wfDef ps = true)
+    (hstar : ∀ sp, starParam ps = some sp → sp.default = none)
+    (args : List Arg) (kw : KwArgs) (hcl : slotsClaimed ps args kw = true)
+    (h : (getDelegate L ps args kw).isSome = true) : (mapArgs L ps args kw).isSome = true := by
+  obtain ⟨ht, hd⟩ := wfDef_takes hwf
+  have hn : namesOf ps = argNames ps := by
+    simp only [namesOf, argNames]
+    congr 1
+    apply List.filter_congr
+    intro p hp
+    rw [ht p hp]
+  have hnc : noClash ps args kw = true := by
+    cases hc : noClash ps args kw with
+    | true => rfl
+    | false => rw [getDelegate_clash L ps hwf args kw hc] at h; cases h
+  rw [getDelegate_eq_of_received L ps hwf args kw hnc] at h
+  cases hb : bindLoop L (fun p => effective ps p args kw) (core0 ps) ps with
+  | none => rw [hb] at h; cases h
+  | some c =>
+      rw [hb, Option.bind_some] at h
+      cases hf : finish L ps args (c.withRest (extraKw ps kw)) with
+      | none => rw [hf] at h; cases h
+      | some b =>
+          obtain ⟨hF1, hF2⟩ := finish_some hf
+          have hvis : c.vis = visCount ps := by
+            have := bindLoop_vis L _ ps _ c hb
+            simpa [core0, visCount] using this
+          simp only [Core.withRest, hvis] at hF1 hF2
+          obtain ⟨st', hl, hr', hlen', hg'⟩ := mapLoop_spec L ps args ps
+            { pos := List.replicate args.length (starParam ps), kwd := [], rest := kw } hd (by simp)
+            (noClash_spec hnc) (bindLoop_checks L _ ps _ c hb)
+          rw [mapArgs_eq_finish, hl, Option.bind_some]
+          apply mapFinish_isSome
+          · apply posOk_of_good L st'.pos args hlen'
+            intro i hi
+            rw [hlen'] at hi
+            apply hg'
+            by_cases hiv : i < visCount ps
+            · right
+              simp only [slotsClaimed, List.all_eq_true, List.mem_range, List.any_eq_true, beq_iff_eq] at hcl
+              exact hcl i (by omega)
+            · left
+              obtain ⟨sp, hsp, hall⟩ := hF1 (by omega)
+              have hsd := hstar sp hsp
+              simp only [List.getD_eq_getElem?_getD, List.getElem?_replicate, hi, if_true, Option.getD_some, hsp,
+                goodV, hsd, Option.getD_none]
+              have hmem : args.getD i .noValue ∈ args.drop (visCount ps) := by
+                rw [List.mem_iff_getElem?]
+                refine ⟨i - visCount ps, ?_⟩
+                rw [List.getElem?_drop]
+                have : visCount ps + (i - visCount ps) = i := by omega
+                rw [this, List.getD_eq_getElem?_getD, List.getElem?_eq_getElem hi, Option.getD_some]
+              have hchk := (List.all_eq_true.1 hall) _ hmem
+              rw [← List.getD_eq_getElem?_getD]
+              split
+              · rename_i hnv
+                rw [isNoValue_eq hnv] at hchk
+                exact hchk
+              · exact hchk
+          · rw [hr', hn]
+            exact hF2
+
+/-- `map_args` agrees on the spellings of a vector that `get_delegate` binds -/
+theorem spelling_mapArgs_agree (L : Lattice) (ps : List Param) (hwf : wfDef ps = true)
+    (hstarNoDefault : ∀ sp, starParam ps = some sp → sp.default = none)
+    (args args' : List Arg) (kw kw' : KwArgs)
+    (hval : ∀ p ∈ ps, p.hidden = false → p.isStar = false → p.isStarStar = false →
+      effective ps p args kw = effective ps p args' kw')
+    (hstar : args.drop (visCount ps) = args'.drop (visCount ps))
+    (hextra : extraKw ps kw = extraKw ps kw') (hclash : noClash ps args kw = noClash ps args' kw')
+    (hcl : slotsClaimed ps args kw = true) (hcl' : slotsClaimed ps args' kw' = true)
+    (h : (getDelegate L ps args kw).isSome = true) :
+    (mapArgs L ps args kw).isSome = true ∧ (mapArgs L ps args' kw').isSome = true :=
+  ⟨mapArgs_of_getDelegate L ps hwf hstarNoDefault args kw hcl h,
+   mapArgs_of_getDelegate L ps hwf hstarNoDefault args' kw' hcl'
+     (spelling_equiv L ps hwf args args' kw kw' hval hstar hextra hclash ▸ h)⟩
+
+namespace Ex12
+def c6 : Arg := .const (.obj 6 [] 2) .num none 0
+def pstar : Param := { key := .star, name := ['r'], alias := none, position := some 1, default := some (.value .none),
+                       ty := .py (.one 0) false [] }
+end Ex12
+
+open Ex12 in
+/-- `map_args` alone is NOT spelling-invariant (the real `map_args` agrees with the model on both witnesses):
+    (1) it checks the arguments in the slots and `**`'s share, but not the keywords that named parameters
+    take: a constant of the wrong class is rejected in the slot and accepted by keyword (`get_delegate`
+    rejects both);
+    (2) an empty slot whose parameter comes by keyword is never entered: `f(x, <empty>, b => d)` is rejected
+    by `map_args` although `get_delegate` alone binds it; `f(x, b => d)` and `f(x, d)` pass -/
+theorem mapArgs_not_spelling_invariant :
+    ((mapArgs C05.Ex.lat [pa] [c6] []).isSome = false ∧ (mapArgs C05.Ex.lat [pa] [] [(['a'], c6)]).isSome = true ∧
+      effective [pa] pa [c6] [] = effective [pa] pa [] [(['a'], c6)] ∧
+      getDelegate C05.Ex.lat [pa] [c6] [] = none ∧ getDelegate C05.Ex.lat [pa] [] [(['a'], c6)] = none) ∧
+    ((mapArgs C05.Ex.lat psab [v', .noValue] [(['b'], v)]).isSome = false ∧
+      slotsClaimed psab [v', .noValue] [(['b'], v)] = false ∧
+      (getDelegate C05.Ex.lat psab [v', .noValue] [(['b'], v)]).isSome = true ∧
+      getDelegate C05.Ex.lat psab [v', .noValue] [(['b'], v)] = getDelegate C05.Ex.lat psab [v', v] [] ∧
+      (mapArgs C05.Ex.lat psab [v'] [(['b'], v)]).isSome = true ∧ (mapArgs C05.Ex.lat psab [v', v] []).isSome = true) := by
+  decide
+
+open Ex12 in
+/-- what (1) does to the choice of an overload: `P(x: Lambda)`, `Q(x: String)`; `f(1)` is answered by `P`
+    (`map_args` drops `Q` before the laziness comparison), `f(x => 1)` is Ambiguous (`Q` stays in).  The real
+    resolver does the same (notes/C12.md) -/
+example :
+    (resolve C05.Ex.lat C05.Ex.famPQ { receiver := none, args := [c6], kwargs := [] }).res =
+      .ok (0, { pos := [some (.arg c6)], extra := [], kw := [] }) ∧
+    (resolve C05.Ex.lat C05.Ex.famPQ { receiver := none, args := [], kwargs := [(['x'], c6)] }).res =
+      .error .ambiguous := by
+  decide
+
+open Ex12 in
+/-- the guards of `mapArgs_of_getDelegate` are needed and satisfiable: (2) above for `slotsClaimed`; a `*`
+    parameter with a default and an empty slot in its share for the other (`map_args` checks the default,
+    `get_delegate` the NO_VALUE marker); every spelling of the non-vacuity example of `spelling_equiv`
+    satisfies both and passes `map_args` -/
+example :
+    (wfDef [pa, pstar] = true ∧ slotsClaimed [pa, pstar] [v, .noValue] [] = true ∧
+      (getDelegate C05.Ex.lat [pa, pstar] [v, .noValue] []).isSome = true ∧
+      (mapArgs C05.Ex.lat [pa, pstar] [v, .noValue] []).isSome = false) ∧
+    ([([v'], []), ([v', v], []), ([v', .noValue], []), ([], [(['b'], v), (['a'], v')]), ([], [(['a'], v')]),
+      ([v'], [(['b'], v)])] : List (List Arg × KwArgs)).all (fun sp =>
+        slotsClaimed psab sp.1 sp.2 && (mapArgs C05.Ex.lat psab sp.1 sp.2).isSome) = true := by
+  decide
 
 /-- hypotheses of the two move theorems are satisfiable: `f(a, ctx, b = d)` with a hidden parameter
     in the middle, `b` moved to a keyword / left to its default -/
